@@ -1,3 +1,3 @@
 From Coq Require Import Extraction ExtrOcamlBasic.
-From Vivid Require Import Base.Tm Codec.ReflectRun.
-Extraction "reflect_total_model.ml" run_reflect.
+From Vivid Require Import Base.Tm Codec.BufRun.
+Extraction "reflect_total_model.ml" run_reflect_all.
